@@ -222,7 +222,7 @@ def check_dataset(case, ctx):
 def facets():
     allops = [n for n in ops.CATALOGUE if ops.CATALOGUE[n][2] != "timestat"]  # hmax depends on the whole time axis by definition
     return [
-        Facet("per_position", indep_case(allops), _each_op(check_per_position), quick=240, thorough=12000, qshards=8),
-        Facet("perturb", indep_case(allops), _each_op(check_perturb), quick=240, thorough=12000, qshards=6),
-        Facet("dataset_accessor", indep_case(DS_OPS), _each_op(check_dataset), quick=100, thorough=4000, qshards=2),
+        Facet("per_position", indep_case(allops), _each_op(check_per_position), quick=240, thorough=6000, qshards=8),
+        Facet("perturb", indep_case(allops), _each_op(check_perturb), quick=240, thorough=6000, qshards=6),
+        Facet("dataset_accessor", indep_case(DS_OPS), _each_op(check_dataset), quick=100, thorough=2000, qshards=2),
     ]
